@@ -203,7 +203,7 @@ Definition u8 := TInt false 8.
 Theorem C02_short_circuit_silent :
   eval 20 (mkProgram [] [] [] [] 0) (mkEnv [[]] false)
     (Ex (EOp OLAnd (Ex EFalse m0 TBool)
-          (Ex (EOp OEq (Ex (EOp ODiv (Ex (ENumU 1) m0 u8) (Ex (ENumU 0) m0 u8)) m0 u8) (Ex (ENumU 0) m0 u8)) m0 TBool))
+          (Ex (EOp OEq (Ex (EOp ODiv (Ex (ENumU 1 8) m0 u8) (Ex (ENumU 0 8) m0 u8)) m0 u8) (Ex (ENumU 0 8) m0 u8)) m0 TBool))
         m0 TBool)
   = Done (VBool false, mkEnv [[]] false).
 Proof. vm_compute. reflexivity. Qed.
